@@ -103,19 +103,22 @@ def forbidden_in_closure(modules: list) -> list:
 # expressions
 # --------------------------------------------------------------------------------------
 UNARY_NP = {
+    "round": lambda x: np.round(x), "pyround": lambda x: round(x),
     "neg": lambda x: -x, "abs": lambda x: abs(x), "sin": np.sin, "cos": np.cos, "sqrt": np.sqrt,
     "exp": np.exp, "tanh": np.tanh, "tan": np.tan, "log": np.log, "log2": np.log2,
     "floor": np.floor, "ceil": np.ceil,
 }
 # the independent evaluator (python scalars + math)
 UNARY_PY = {
+    "round": lambda x: float(np.round(x)), "pyround": lambda x: float(np.round(x)),
     "neg": lambda x: -x, "abs": lambda x: abs(x), "sin": math.sin, "cos": math.cos, "sqrt": math.sqrt,
     "exp": math.exp, "tanh": math.tanh, "tan": math.tan, "log": math.log, "log2": math.log2,
     "floor": lambda x: float(math.floor(x)), "ceil": lambda x: float(math.ceil(x)),
 }
 BINARY = {
     "add": lambda a, b: a + b, "sub": lambda a, b: a - b, "mul": lambda a, b: a * b,
-    "div": lambda a, b: a / b,
+    "div": lambda a, b: a / b, "pow": lambda a, b: a ** b, "mod": lambda a, b: a % b,
+    "floordiv": lambda a, b: a // b,
 }
 
 
@@ -202,12 +205,14 @@ def expr_str(x) -> str:
 # context: device + register (concrete or mappable)
 # --------------------------------------------------------------------------------------
 class Ctx:
-    """A device spec, the qubit ids in declared order, optionally a layout (mappable)."""
+    """A device (lattice spec -> VirtualDevice, or a given device), the qubit ids in declared
+    order, and the register: concrete, concrete-on-a-layout, or mappable."""
 
     def __init__(self, spec: dict, mappable: bool = False, extra_ids: int = 0, extra_traps: int = 2,
-                 device=None, register=None, chan_ids=None, dmm_ids=None):
+                 device=None, register=None, chan_ids=None, dmm_ids=None, with_layout: bool = False):
         self.spec = spec
         self.mappable = mappable
+        self.with_layout = with_layout
         if device is None:
             self.dev = Dev(spec)
             self.device = self.dev.device
@@ -222,17 +227,22 @@ class Ctx:
             self.nq = spec["nq"]
         self.qids = [f"q{i}" for i in range(self.nq + (extra_ids if mappable else 0))]
         # (a device accepts a layout filled to at most `max_layout_filling` = 0.5 by default)
-        ntraps = 2 * len(self.qids) + extra_traps if mappable else len(self.qids)
+        ntraps = 2 * len(self.qids) + extra_traps if (mappable or with_layout) else len(self.qids)
         self.coords = [(6.0 * (i % len(self.qids)), 7.0 * (i // len(self.qids))) for i in range(ntraps)]
         self.layout = None
         self.register = register
-        if mappable:
+        if mappable or (with_layout and register is None):
             self.layout = RegisterLayout(self.coords)
             # trap ids are assigned by the layout (sorted coordinates): look them up
             self.trap_of_coord = {tuple(np.round(c, 6)): i for i, c in enumerate(self.layout.coords.tolist())}
+        if mappable:
             self.mreg = MappableRegister(self.layout, *self.qids)
         elif register is None:
-            self.register = Register({q: self.coords[i] for i, q in enumerate(self.qids)})
+            if with_layout:
+                traps = [self.trap_of_coord[tuple(np.round(self.coords[i], 6))] for i in range(len(self.qids))]
+                self.register = self.layout.define_register(*traps, qubit_ids=self.qids)
+            else:
+                self.register = Register({q: self.coords[i] for i, q in enumerate(self.qids)})
 
     def new_template(self) -> Sequence:
         with warnings.catch_warnings():
@@ -246,7 +256,7 @@ class Ctx:
         """The detuning map of a `detmap` op: weights per declared qubit index, put on the
         default positions of those qubits (trap coordinates i for qubit i)."""
         w = {i: weights[i] for i in range(min(len(weights), self.nq))}
-        if self.mappable:
+        if self.mappable or self.with_layout:
             # (directly: RegisterLayout.define_detuning_map refuses a single trap, finding F13d)
             from pulser.register.weight_maps import DetuningMap
 
@@ -254,6 +264,30 @@ class Ctx:
         reg = self.register
         ids = list(reg.qubit_ids)
         return reg.define_detuning_map({ids[i]: x for i, x in w.items()})
+
+
+def spec_of_device(device, nq: int) -> dict:
+    """The lattice-style description gen.HistoryGen needs, read off a real device."""
+    def chan(ch, is_dmm=False):
+        kind = "dmm" if is_dmm else {"ground-rydberg": "rydberg", "digital": "raman", "XY": "microwave"}[ch.basis]
+        c = dict(kind=kind, local=ch.addressing == "Local", clock_period=ch.clock_period,
+                 min_duration=ch.min_duration, max_duration=ch.max_duration, mod_bandwidth=ch.mod_bandwidth)
+        if is_dmm:
+            c["bottom_detuning"] = ch.bottom_detuning
+            c["total_bottom_detuning"] = ch.total_bottom_detuning
+            return c
+        c.update(max_amp=ch.max_amp, max_abs_detuning=ch.max_abs_detuning, min_avg_amp=ch.min_avg_amp,
+                 custom_phase_jump_time=None)
+        if c["local"]:
+            c.update(min_retarget_interval=ch.min_retarget_interval or 0, fixed_retarget_t=ch.fixed_retarget_t or 0,
+                     max_targets=ch.max_targets)
+        if ch.eom_config is not None:
+            c["eom"] = dict(max_limiting_amp=float(ch.eom_config.max_limiting_amp))
+        return c
+
+    return dict(channels=[chan(c) for c in device.channels.values()],
+                dmms=[chan(c, True) for c in device.dmm_channels.values()],
+                nq=nq, reusable=bool(device.reusable_channels), max_seq=device.max_sequence_duration)
 
 
 # --------------------------------------------------------------------------------------
@@ -340,7 +374,7 @@ def apply_op(seq: Sequence, ctx: Ctx, op: dict, mk, omit_defaults: bool = False)
         kw = opt({}, "dmm_id", op.get("dmm", "dmm_0"), "dmm_0")
         seq.config_slm_mask(qid_list(ctx, op["qs"]), **kw)
     elif k == "magfield":
-        seq.set_magnetic_field(*op["b"])
+        seq.set_magnetic_field(*op["field"])
     elif k == "target":
         seq.target(qid_list(ctx, op["qs"]), real_name(op["ch"]))
     elif k == "targeti":
@@ -648,6 +682,212 @@ def valid_history(rng: random.Random, spec: dict, nops: int, profile: str = "mix
     return good
 
 
+class _Real(RealSeq):
+    """What gen.HistoryGen looks at (a RealSeq around a sequence of any context)."""
+
+    def __init__(self, seq, ctx):  # noqa: super().__init__ would build a lattice device
+        self.seq = seq
+        self.dev = ctx
+
+
+def valid_history_ctx(rng: random.Random, ctx: Ctx, nops: int, profile: str = "mix", exact: bool = False,
+                      p_invalid: float = 0.04) -> list:
+    """`valid_history` on any context (built-in devices, layout registers)."""
+    from gen import HistoryGen
+
+    seq = ctx.new_template()
+    real = _Real(seq, ctx)
+    g = HistoryGen(rng, ctx.spec, exact=exact, profile=profile, p_invalid=p_invalid)
+    ops = []
+    for _ in range(nops):
+        op = g.next_op()
+        if op["k"] not in BUILDING or _nonfinite(op):
+            continue
+        r = try_op(seq, ctx, op, lambda x: x)
+        g.feedback(op, r[0], real)
+        if r[0] == "ok":
+            ops.append(op)
+    return revalidate(ctx, ops)
+
+
+def revalidate(ctx: Ctx, ops: list) -> list:
+    """Keep the ops that succeed, in order, on a fresh sequence."""
+    seq = ctx.new_template()
+    good = []
+    for op in ops:
+        if try_op(seq, ctx, op, lambda x: x)[0] == "ok":
+            good.append(op)
+    return good
+
+
+def _alt_wf(rng: random.Random, dur: int, lo: float, hi: float, kinds=None):
+    """A waveform of duration `dur` of one of the kinds HistoryGen does not draw."""
+    v = lambda: round(rng.uniform(lo, hi), 3)  # noqa: E731
+    kinds = kinds or ["kaiser", "kaiser_beta", "composite", "interp_times", "interp_pchip", "custom", "ramp", "const"]
+    k = rng.choice(kinds)
+    if k == "kaiser" and dur >= 4 and lo >= 0:
+        return ["kaiser", dur, round(rng.uniform(0.1, 2.0), 3)]
+    if k == "kaiser_beta" and dur >= 4 and lo >= 0:
+        return ["kaiser", dur, round(rng.uniform(0.1, 2.0), 3), rng.choice([2.0, 8.5, 14.0])]
+    if k == "composite" and dur >= 4:
+        d1 = rng.randrange(1, dur)
+        return ["composite", [["const", d1, v()], ["ramp", dur - d1, v(), v()] if dur - d1 >= 2 else ["const", dur - d1, v()]]]
+    if k == "interp_times" and dur >= 8:
+        return ["interp", dur, [v(), v(), v()], [0.0, rng.choice([0.25, 0.5, 0.7]), 1.0]]
+    if k == "interp_pchip" and dur >= 8:
+        return ["interp", dur, [v(), v(), v(), v()], None, rng.choice(["PchipInterpolator", "interp1d"])]
+    if k == "custom" and dur <= 64:
+        return ["custom", [v() for _ in range(dur)]]
+    if k == "ramp" and dur >= 2:
+        return ["ramp", dur, v(), v()]
+    return ["const", dur, v()]
+
+
+def decorate(rng: random.Random, ctx: Ctx, ops: list, stats=None) -> list:
+    """Widen a HistoryGen history to every op kind / pulse constructor / waveform kind of the
+    public API (then re-validated by the caller)."""
+    out = []
+    spec = ctx.spec
+    note = (lambda k: stats.__setitem__(k, stats.get(k, 0) + 1)) if stats is not None else (lambda k: None)
+    has_xy = any(c["kind"] == "microwave" for c in spec["channels"])
+    if has_xy and rng.random() < 0.5:
+        out.append(dict(k="magfield", field=[rng.choice([0.0, 1.5]), rng.choice([0.0, -2.0]), rng.choice([30.0, 12.5])]))
+        note("magfield")
+    slm_ok = (not ctx.mappable) and bool(ctx.dmm_ids) and getattr(ctx.device, "supports_slm_mask", False)
+    slm_at = rng.randrange(0, len(ops) + 1) if (slm_ok and rng.random() < 0.3) else None
+    for i, op in enumerate(ops):
+        if slm_at == i:
+            qs = sorted(rng.sample(range(ctx.nq), rng.randrange(1, ctx.nq + 1)))
+            d = dict(k="slm", qs=qs, dmm=rng.choice(ctx.dmm_ids))
+            out.append(d)
+            note("slm")
+        op = copy.deepcopy(op)
+        k = op["k"]
+        if k == "add" and rng.random() < 0.55:
+            p = op["pulse"]
+            dur = _wf_duration(p["amp"])
+            ch = real_name(op["ch"])
+            x = rng.random()
+            amax = 8.0
+            if x < 0.2:
+                p["amp"] = _alt_wf(rng, dur, 0.0, amax)
+                note("wf:" + p["amp"][0])
+            elif x < 0.35:
+                p["det"] = _alt_wf(rng, dur, -20.0, 20.0, ["composite", "interp_times", "interp_pchip", "custom", "ramp"])
+                note("wf:" + p["det"][0])
+            elif x < 0.5:
+                det = p["det"][2] if p["det"][0] == "const" else round(rng.uniform(-10, 10), 3)
+                amp = p["amp"]
+                if rng.random() < 0.4:
+                    amp = [rng.choice(["blackman_max", "kaiser_max"]), round(rng.uniform(2.0, amax), 3),
+                           round(rng.uniform(0.2, 2.5), 3)]
+                op["pulse"] = dict(kind="constdet", amp=amp, det=det, phase=p.get("phase", 0.0), post=p.get("post", 0.0))
+                note("pulse:constdet:" + amp[0])
+            elif x < 0.65:
+                amp = p["amp"][2] if p["amp"][0] == "const" else round(rng.uniform(0.5, amax), 3)
+                op["pulse"] = dict(kind="constamp", amp=amp, det=p["det"], phase=p.get("phase", 0.0),
+                                   post=p.get("post", 0.0))
+                note("pulse:constamp")
+            elif x < 0.8:
+                op["pulse"] = dict(kind="constpulse", dur=dur, amp=round(rng.uniform(0.5, amax), 3),
+                                   det=round(rng.uniform(-10, 10), 3), phase=p.get("phase", 0.0), post=p.get("post", 0.0))
+                note("pulse:constpulse")
+            else:
+                phase_wf = _alt_wf(rng, dur, -3.0, 3.0, ["const", "ramp", "interp_times", "custom"])
+                op["pulse"] = dict(kind="arbphase", amp=p["amp"], phase_wf=phase_wf, post=p.get("post", 0.0))
+                note("pulse:arbphase:" + phase_wf[0])
+        elif k == "adddmm" and rng.random() < 0.3:
+            dur = _wf_duration(op["wf"])
+            if dur:
+                op["wf"] = _alt_wf(rng, dur, -8.0, 0.0, ["composite", "interp_times", "custom", "ramp"])
+                note("dmmwf:" + op["wf"][0])
+        elif k == "target" and rng.random() < 0.4:
+            op["k"] = "targeti"
+            if len(op["qs"]) == 1 and rng.random() < 0.5:
+                op["qs"] = op["qs"][0]
+            note("target_index")
+        elif k == "shift" and op["qs"] and rng.random() < 0.4:
+            op["k"] = "shifti"
+            note("phase_shift_index")
+        out.append(op)
+    if slm_at == len(ops):
+        qs = sorted(rng.sample(range(ctx.nq), rng.randrange(1, ctx.nq + 1)))
+        out.append(dict(k="slm", qs=qs, dmm=rng.choice(ctx.dmm_ids)))
+        note("slm")
+    if not any(o["k"] == "measure" for o in out) and rng.random() < 0.4:
+        bases = {"rydberg": "ground-rydberg", "raman": "digital", "microwave": "XY"}
+        avail = sorted({bases[c["kind"]] for c in spec["channels"]})
+        if has_xy and any(o["k"] == "declare" and o["id"] < len(spec["channels"])
+                          and spec["channels"][o["id"]]["kind"] == "microwave" for o in out):
+            avail = ["XY"]
+        else:
+            avail = [b for b in avail if b != "XY"] or avail
+        out.append(dict(k="measure", basis=rng.choice(avail)))
+        note("measure")
+    return out
+
+
+def install_check_schema_memo() -> None:
+    """`jsonschema.validate` re-validates the (constant) schema against its metaschema on every call;
+    memoise `check_schema` per schema object: same verdicts, the library stays on its validating path."""
+    import jsonschema
+
+    if getattr(install_check_schema_memo, "done", False):
+        return
+    for cls in (jsonschema.Draft7Validator, jsonschema.Draft202012Validator, jsonschema.Draft201909Validator,
+                jsonschema.Draft6Validator, jsonschema.Draft4Validator):
+        orig = cls.check_schema.__func__
+        seen: dict = {}
+
+        def check_schema(klass, schema, *a, _orig=orig, _seen=seen, **kw):
+            key = id(schema)
+            if key not in _seen:
+                _orig(klass, schema, *a, **kw)
+                _seen[key] = schema
+            return None
+
+        cls.check_schema = classmethod(check_schema)
+    install_check_schema_memo.done = True
+
+
+def install_validate_memo(size: int = 16) -> None:
+    """The same document is validated three times per round trip (inside `to_abstract_repr`, by the
+    explicit `validate_abstract_repr`, inside `from_abstract_repr`); validation is a pure function of
+    (schema, instance): remember the verdict of the last few (schema, instance) pairs."""
+    import jsonschema
+
+    if getattr(install_validate_memo, "done", False):
+        return
+    orig = jsonschema.validate
+    memo: dict = {}
+
+    def validate(instance, schema, *args, **kwargs):
+        try:
+            key = (id(schema), json.dumps(instance, sort_keys=True))
+        except (TypeError, ValueError):
+            return orig(instance, schema, *args, **kwargs)
+        if key in memo:
+            exc = memo[key]
+            if exc is not None:
+                raise exc
+            return None
+        try:
+            orig(instance, schema, *args, **kwargs)
+            verdict = None
+        except jsonschema.exceptions.ValidationError as e:
+            verdict = e
+        if len(memo) >= size:
+            memo.pop(next(iter(memo)))
+        memo[key] = verdict
+        if verdict is not None:
+            raise verdict
+        return None
+
+    jsonschema.validate = validate
+    install_validate_memo.done = True
+    install_validate_memo.calls = memo
+
+
 # --------------------------------------------------------------------------------------
 # parametrisation of a concrete history
 # --------------------------------------------------------------------------------------
@@ -733,6 +973,52 @@ def float_expr(pool: VarPool, v: float, role: str):
     return it(v)
 
 
+def exotic_float_expr(pool: VarPool, v: float, role: str):
+    """The remaining operators of `OpSupport` (pow, mod, floor-div, floor, ceil, log, log2, tan,
+    tanh, rounding) around a variable, with value ~v."""
+    r = pool.rng
+    it = lambda val: pool.item("float", float(val), role)  # noqa: E731
+    forms = ["pow1", "rpow", "mod", "tanh+", "tan", "round", "pyround", "floor+", "ceil-", "floordiv"]
+    if v >= 0:
+        forms += ["pow2"]
+    if v > 0:
+        forms += ["log", "log2"]
+    f = r.choice(forms)
+    if f == "pow1":
+        return {"b": "pow", "l": it(v), "r": 1}
+    if f == "pow2":
+        return {"b": "pow", "l": it(math.sqrt(v)), "r": 2}
+    if f == "rpow":   # 2 ** x - 2 ** x0 + v
+        x0 = round(r.uniform(-1, 1), 3)
+        return {"b": "add", "l": {"b": "pow", "l": 2, "r": it(x0)}, "r": v - 2 ** x0}
+    if f == "mod":
+        m = abs(v) + r.choice([1.0, 7.5])
+        return {"b": "mod", "l": it(v % m), "r": m} if v >= 0 else {"u": "neg", "a": {"b": "mod", "l": it((-v) % m), "r": m}}
+    if f == "tanh+":
+        x0 = round(r.uniform(-1, 1), 3)
+        return {"b": "add", "l": {"u": "tanh", "a": it(x0)}, "r": v - math.tanh(x0)}
+    if f == "tan":
+        x0 = round(r.uniform(-1, 1), 3)
+        return {"b": "add", "l": {"u": "tan", "a": it(x0)}, "r": v - math.tan(x0)}
+    if f == "log":
+        return {"u": "log", "a": it(math.exp(min(v, 50.0)))} if v < 50 else it(v)
+    if f == "log2":
+        return {"u": "log2", "a": it(2.0 ** min(v, 50.0))} if v < 50 else it(v)
+    if f in ("round", "pyround"):
+        x0 = round(r.uniform(-3, 3), 2)
+        return {"b": "add", "l": {"u": f, "a": it(x0)}, "r": v - float(np.round(x0))}
+    if f == "floor+":
+        x0 = round(r.uniform(-3, 3), 2)
+        return {"b": "add", "l": {"u": "floor", "a": it(x0)}, "r": v - math.floor(x0)}
+    if f == "ceil-":
+        x0 = round(r.uniform(-3, 3), 2)
+        return {"b": "add", "l": {"u": "ceil", "a": it(x0)}, "r": v - math.ceil(x0)}
+    if f == "floordiv":
+        x0 = round(r.uniform(1, 9), 2)
+        return {"b": "add", "l": {"b": "floordiv", "l": it(x0), "r": 2}, "r": v - (x0 // 2)}
+    return it(v)
+
+
 def int_expr(pool: VarPool, v: int, role: str):
     """An integer-valued expression (int variables, integer-preserving operators)."""
     r = pool.rng
@@ -767,14 +1053,32 @@ def _wf_duration(w):
     return None
 
 
+def _expr_nodes(e):
+    if isinstance(e, dict):
+        yield e
+        for v in e.values():
+            yield from _expr_nodes(v)
+
+
 class Parametrizer:
     """Replaces a random subset of the numeric arguments of a history by expressions."""
 
-    def __init__(self, rng: random.Random, pool: VarPool, p: float = 0.45):
+    def __init__(self, rng: random.Random, pool: VarPool, p: float = 0.45, exotic: float = 0.0):
         self.rng = rng
         self.pool = pool
         self.p = p
+        self.exotic = exotic
+        self.list_of_items = True   # also draw target_index([v0, v1]) (finding F-C08-1)
         self.positions = {}  # histogram of parametrised positions
+        self.operators = {}  # histogram of expression operators used
+
+    def fexpr(self, v, role: str):
+        e = exotic_float_expr(self.pool, v, role) if self.rng.random() < self.exotic else float_expr(self.pool, v, role)
+        for node in _expr_nodes(e):
+            key = node.get("b") or node.get("u")
+            if key:
+                self.operators[key] = self.operators.get(key, 0) + 1
+        return e
 
     def hit(self, what: str) -> bool:
         if self.rng.random() < self.p:
@@ -791,18 +1095,18 @@ class Parametrizer:
             w[1] = shared_dur
         if k == "const":
             if self.hit(f"wf.const.{role}"):
-                w[2] = float_expr(self.pool, w[2], role)
+                w[2] = self.fexpr(w[2], role)
         elif k == "ramp":
             if self.hit(f"wf.ramp.{role}"):
-                w[2] = float_expr(self.pool, w[2], role)
+                w[2] = self.fexpr(w[2], role)
             if self.hit(f"wf.ramp.{role}"):
-                w[3] = float_expr(self.pool, w[3], role)
+                w[3] = self.fexpr(w[3], role)
         elif k in ("blackman", "kaiser"):
             if self.hit(f"wf.{k}.area"):
-                w[2] = float_expr(self.pool, w[2], "area")
+                w[2] = self.fexpr(w[2], "area")
         elif k in ("blackman_max", "kaiser_max"):
             if self.hit(f"wf.{k}.area"):
-                w[2] = float_expr(self.pool, w[2], "area")
+                w[2] = self.fexpr(w[2], "area")
         elif k == "interp":
             if self.hit("wf.interp.values") and len(w[2]) <= 6 and (len(w) < 4 or w[3] is None):
                 name = self.pool.fresh("float", len(w[2]), [float(x) for x in w[2]], role)
@@ -833,21 +1137,21 @@ class Parametrizer:
                 shared = int_expr(self.pool, _wf_duration(p["amp"]), "dur")
             p["amp"] = self.wf(p["amp"], shared, "amp")
             if self.hit("pulse.constdet.det"):
-                p["det"] = float_expr(self.pool, p["det"], "det")
+                p["det"] = self.fexpr(p["det"], "det")
         elif kind == "constamp":
             shared = None
             if p["det"][0] in ("const", "ramp", "blackman", "kaiser", "interp") and self.hit("pulse.duration"):
                 shared = int_expr(self.pool, _wf_duration(p["det"]), "dur")
             p["det"] = self.wf(p["det"], shared, "det")
             if self.hit("pulse.constamp.amp"):
-                p["amp"] = float_expr(self.pool, p["amp"], "amp")
+                p["amp"] = self.fexpr(p["amp"], "amp")
         elif kind == "constpulse":
             if self.hit("pulse.duration"):
                 p["dur"] = int_expr(self.pool, p["dur"], "dur")
             if self.hit("pulse.constpulse.amp"):
-                p["amp"] = float_expr(self.pool, p["amp"], "amp")
+                p["amp"] = self.fexpr(p["amp"], "amp")
             if self.hit("pulse.constpulse.det"):
-                p["det"] = float_expr(self.pool, p["det"], "det")
+                p["det"] = self.fexpr(p["det"], "det")
         elif kind == "arbphase":
             shared = None
             if p["amp"][0] in ("const", "ramp", "blackman", "kaiser", "interp") and \
@@ -856,9 +1160,9 @@ class Parametrizer:
             p["amp"] = self.wf(p["amp"], shared, "amp")
             p["phase_wf"] = self.wf(p["phase_wf"], shared, "phase")
         if kind != "arbphase" and self.hit("pulse.phase"):
-            p["phase"] = float_expr(self.pool, p.get("phase", 0.0), "phase")
+            p["phase"] = self.fexpr(p.get("phase", 0.0), "phase")
         if self.hit("pulse.post"):
-            p["post"] = float_expr(self.pool, p.get("post", 0.0), "phase")
+            p["post"] = self.fexpr(p.get("post", 0.0), "phase")
         return p
 
     def op(self, op: dict, allow_index: bool = True) -> dict:
@@ -877,26 +1181,26 @@ class Parametrizer:
             if self.hit("eom_pulse.duration"):
                 op["dur"] = int_expr(pool, op["dur"], "dur")
             if self.hit("eom_pulse.phase"):
-                op["phase"] = float_expr(pool, op["phase"], "phase")
+                op["phase"] = self.fexpr(op["phase"], "phase")
             if self.hit("eom_pulse.post"):
-                op["post"] = float_expr(pool, op.get("post", 0.0), "phase")
+                op["post"] = self.fexpr(op.get("post", 0.0), "phase")
         elif k == "delay":
             if self.hit("delay.duration"):
                 op["d"] = int_expr(pool, op["d"], "dur")
         elif k in ("eomon", "eommod"):
             if self.hit("eom.amp_on"):
-                op["amp"] = float_expr(pool, op["amp"], "eomamp")
+                op["amp"] = self.fexpr(op["amp"], "eomamp")
             if self.hit("eom.detuning_on"):
-                op["det_on"] = float_expr(pool, op["det_on"], "det")
+                op["det_on"] = self.fexpr(op["det_on"], "det")
             if self.hit("eom.optimal_detuning_off"):
-                op["optimal"] = float_expr(pool, op.get("optimal", 0.0), "det")
+                op["optimal"] = self.fexpr(op.get("optimal", 0.0), "det")
         elif k == "shift":
             if allow_index and op["qs"] and self.rng.random() < 0.5:
                 op["k"] = "shifti"
                 op["qs"] = [int_expr(pool, q, "idx") if self.hit("phase_shift_index.target") else q
                             for q in op["qs"]]
             if self.hit("phase_shift.phi"):
-                op["phi"] = float_expr(pool, op["phi"], "phase")
+                op["phi"] = self.fexpr(op["phi"], "phase")
         elif k == "target":
             if allow_index and self.rng.random() < 0.6:
                 op["k"] = "targeti"
@@ -909,7 +1213,7 @@ class Parametrizer:
                 elif x < 0.7 and len(qs) == 1:
                     self.positions["target_index.item"] = self.positions.get("target_index.item", 0) + 1
                     op["qs"] = int_expr(pool, qs[0], "idx")
-                elif x < 0.74 and qs:
+                elif x < 0.74 and qs and self.list_of_items:
                     # a COLLECTION with parametrized items: accepted when stored (the index check skips
                     # parametrized items) -- see finding F-C08-1
                     self.positions["target_index.list_of_items"] = \
